@@ -24,12 +24,15 @@ SPEC = {
     "assumptions": [],
 }
 
-PP = "builder::pipeline::Pipeline::popen"
+PPUB = "builder::pipeline::Pipeline::popen"
+PP = PPUB
 REORDER = ("rev", "skip", "step_by", "filter", "take", "skip_while", "take_while", "filter_map", "chain", "zip", "cycle", "rev_enumerate")
 
 
 def run(ctx):
+    global PP
     prog = ctx.prog
+    PP = pipeline_spawner(prog) or PPUB       # the function holding the spawn loop (Pipeline::popen itself, or a helper it delegates to)
     pp = prog.one(PP)
     T = M.Terms(pp)
     selfp = ("param", 1, pp.local_name(1))
@@ -226,6 +229,23 @@ def run(ctx):
         v = Tf.operand(ag[0][2]["ops"][ag[0][2]["fields"].index("cmds")])
         ok = v[0] == "call" and v[1] == "std::iter::Iterator::collect" and v[2][0][0] == "call" and v[2][0][1].endswith("into_iter") and v[2][0][2][0] == ("param", 1, fe.local_name(1))
     ctx.ob("R13.3", "from_exec_iter.order", ok, fe.loc(0), "from_exec_iter collects the iterator in iteration order")
+    # "every pipeline of two or more commands": the only refusal is for fewer than two
+    def _small(c):
+        if c[0] != "bin":
+            return False
+        islen = lambda u: M.contains(u, lambda w: w[0] == "call" and w[1].endswith("::len"))
+        return (c[1] == "Lt" and islen(c[2]) and const_of(c[3]) == 2) or (c[1] == "Le" and islen(c[2]) and const_of(c[3]) == 1) \
+            or (c[1] == "Gt" and islen(c[3]) and const_of(c[2]) == 2) or (c[1] == "Ge" and islen(c[3]) and const_of(c[2]) == 1)
+    def _big(c):
+        if c[0] != "bin":
+            return False
+        islen = lambda u: M.contains(u, lambda w: w[0] == "call" and w[1].endswith("::len"))
+        return (c[1] == "Ge" and islen(c[2]) and const_of(c[3]) == 2) or (c[1] == "Gt" and islen(c[2]) and const_of(c[3]) == 1)
+    small_e = bool_edges(fe, Tf, _small, True) + bool_edges(fe, Tf, _big, False)
+    pan = [(bb, t) for bb, t in fe.calls() if is_panic_call(t)]
+    okp = all(dominated_by_edges(fe, bb, small_e) for bb, _ in pan)
+    ctx.ob("R13.3", "from_exec_iter.accepts>=2", okp, fe.loc(pan[0][0] if pan else 0),
+           "from_exec_iter may refuse (panic) only when the collection holds fewer than two commands; found %d panic site(s), guard edges %s" % (len(pan), small_e))
 
     # ---- R13.4 status of the last stage; single spawn path -------------------------------
     pj = prog.one("builder::pipeline::Pipeline::join")
@@ -234,7 +254,7 @@ def run(ctx):
     ok = len(wc) == 1
     if ok:
         recv = M.strip(Tj.operand(wc[0][1]["args"][0]))
-        ok = recv[0] == "call" and recv[1].endswith("::last_mut") and M.contains(recv, lambda u: u[0] == "call" and u[1] == PP)
+        ok = recv[0] == "call" and recv[1].endswith("::last_mut") and M.contains(recv, lambda u: u[0] == "call" and u[1] in (PP, PPUB))
         rets = [a for a in M.alts(Tj.local(0)) if not (a[0] == "call" and "FromResidual" in a[1])]
         ok = ok and rets == [("call", "popen::Popen::wait", (Tj.operand(wc[0][1]["args"][0]),), wc[0][0])]
     ctx.ob("R13.4", "join=wait(last)", ok, pj.loc(0), "Pipeline::join returns wait() of the last started command")
@@ -258,7 +278,7 @@ def run(ctx):
                 es = cd[2][2]
                 ctx.ob("R13.4", "capture.exit_status<-that-wait", M.contains(es, lambda u: u[0] == "call" and u[1] == "popen::Popen::wait"), pcap.loc(bb, si), "CaptureData.exit_status = %s" % M.term_str(es)[:100])
     callers = sorted({f.path for f, _, _ in callers_of(prog, "builder::exec::Exec::popen") if f.path.startswith("builder::pipeline")})
-    ctx.ob("R13.4", "spawn-only-in-Pipeline::popen", callers == [PP], pp.loc(0), "pipeline code calls Exec::popen from %s (only Pipeline::popen)" % callers)
+    ctx.ob("R13.4", "spawn-only-in-Pipeline::popen", callers == [PP], pp.loc(0), "pipeline code calls Exec::popen from %s (must be the one spawn-loop function)" % callers)
     cr = sorted({f.path for f, _, _ in callers_of(prog, "popen::Popen::create") if f.path.startswith("builder::pipeline")})
     ctx.ob("R13.4", "no-direct-create", not cr, "", "pipeline code calls Popen::create directly from %s" % cr)
     for term in ("join", "capture", "communicate", "stream_stdout", "stream_stdin"):
